@@ -38,7 +38,11 @@ func (w *W08) close() {
 	w.G = nil
 }
 
+// loader: 0 FromBuffer, 1 FromUnsafeBytes, 2 FrozenView; +3: into a previously used receiver (eight plain chunks the
+// receiver owns: its per-chunk bookkeeping is stale when the view is loaded over it)
 func newW08(seed shapes.Spec, loader int) func() *W08 {
+	used := loader >= 3
+	loader %= 3
 	return func() *W08 {
 		debug.SetPanicOnFault(true)
 		src := seed.Build()
@@ -56,6 +60,13 @@ func newW08(seed shapes.Spec, loader int) func() *W08 {
 		copy(g.Data, data)
 		g.ReadOnly(true)
 		v := roaring.New()
+		if used {
+			for k := uint32(0); k < 8; k++ {
+				v.Add(k<<16 | 7)
+				v.AddRange(uint64(k)<<16|100, uint64(k)<<16|200)
+			}
+			v.Remove(7) // a history of in-place writes on chunks the receiver owns
+		}
 		switch loader {
 		case 0:
 			_, err = v.FromBuffer(g.Data)
@@ -76,6 +87,15 @@ func newW08(seed shapes.Spec, loader int) func() *W08 {
 }
 
 type op08 = explore.Op[*W08]
+
+// q08: first operand of the three-way unions: one value in chunk 9, above every chunk of the view and of the partner,
+// so that the view's chunks which the partner lacks are inserted in front of an accumulated chunk.
+func q08() *roaring.Bitmap { return roaring.BitmapOf(9<<16 | 3) }
+func q08m() *model.Set32 {
+	m := model.New32()
+	m.Add(9<<16 | 3)
+	return m
+}
 
 // usable: a register may be touched. After the buffer is gone only independent registers may.
 func (w *W08) usable(i int) bool { return w.Regs[i] != nil && !(w.Gone && w.Dep[i]) }
@@ -150,6 +170,27 @@ func ops08(quick bool) []op08 {
 			}),
 		)
 		if !quick || i == 0 {
+			// writes that leave a MIXED pattern of owned and still-shared chunks, and a removal of whole interior chunks
+			// that starts behind the first chunk (per-chunk bookkeeping must shift with the chunks)
+			for _, par := range []int{0, 1} {
+				par := par
+				ops = append(ops, mut08(i, fmt.Sprintf("Remove(first value of every chunk with index %% 2 == %d)", par), func(b *roaring.Bitmap, m *model.Set32) *model.Set32 {
+					for j, k := range m.Keys() {
+						if j%2 == par {
+							if x, ok := firstPresent(m, k); ok {
+								b.Remove(x)
+								m.Remove(x)
+							}
+						}
+					}
+					return m
+				}))
+			}
+			ops = append(ops, mut08(i, "RemoveRange(chunks 1 and 2)", func(b *roaring.Bitmap, m *model.Set32) *model.Set32 {
+				b.RemoveRange(1<<16, 3<<16)
+				m.RemoveRange(1<<16, 3<<16)
+				return m
+			}))
 			ops = append(ops,
 				mut08(i, "AddRange(chunk 1)", func(b *roaring.Bitmap, m *model.Set32) *model.Set32 {
 					b.AddRange(65536, 131072)
@@ -209,6 +250,9 @@ func ops08(quick bool) []op08 {
 			m.FlipRange(5, 9<<16)
 			return m
 		}),
+		derive("FastOr(Q,P,V)", func(v, p *roaring.Bitmap) *roaring.Bitmap { return roaring.FastOr(q08(), p, v) }, func(v, p *model.Set32) *model.Set32 { return model.Or32(model.Or32(q08m(), p), v) }),
+		derive("ParOr(1,Q,P,V)", func(v, p *roaring.Bitmap) *roaring.Bitmap { return roaring.ParOr(1, q08(), p, v) }, func(v, p *model.Set32) *model.Set32 { return model.Or32(model.Or32(q08m(), p), v) }),
+		derive("HeapOr(Q,P,V)", func(v, p *roaring.Bitmap) *roaring.Bitmap { return roaring.HeapOr(q08(), p, v) }, func(v, p *model.Set32) *model.Set32 { return model.Or32(model.Or32(q08m(), p), v) }),
 		derive("AddOffset(V,65536)", func(v, p *roaring.Bitmap) *roaring.Bitmap { return roaring.AddOffset(v, 65536) }, func(v, p *model.Set32) *model.Set32 { return v.Shift(65536) }),
 	)
 	inplace := func(dst, src int, op binCall) op08 {
@@ -314,12 +358,12 @@ func runC08(c *Ctx) {
 		{"1 run chunk", shapes.Spec{Chunks: ks{{Key: 0, Mask: R}}, Mode: shapes.Opt}},
 		{"1 bitmap chunk", shapes.Spec{Chunks: ks{{Key: 1, Mask: B}}, Mode: shapes.Points}},
 	}
-	loaders := []string{"FromBuffer", "FromUnsafeBytes", "FrozenView"}
+	loaders := []string{"FromBuffer", "FromUnsafeBytes", "FrozenView", "FromBuffer into a used receiver", "FromUnsafeBytes into a used receiver", "FrozenView into a used receiver"}
 	var scs []explore.Scenario
 	n := 0
 	for si, sd := range seeds {
 		for li, ln := range loaders {
-			if q && !(si == 0 || (si == 2 && li == 1) || (si == 1 && li == 2)) {
+			if q && !((si == 0 && li != 5) || (si == 2 && li == 1) || (si == 1 && li == 2)) {
 				continue
 			}
 			b := &explore.BFS[*W08]{
